@@ -641,6 +641,9 @@ func (e *engine) finish() {
 		return
 	}
 	for s, src := range e.srcs {
+		if e.dead {
+			return // (a panicking Release leaves the service mutex locked)
+		}
 		r, x, ex := tindex.VerifState(e.svc, src)
 		if ex && (r != 0 || x) {
 			e.specFail("leak", "activity stopped but readers is not back to 0 (or the partition is still exclusively locked)", fmt.Sprintf("src=%d readers=%d exclusive=%v", s, r, x), "readers=0")
@@ -1052,8 +1055,8 @@ func runCallers(c callersCase, sec *vh.Section) {
 	}
 	defer func() {
 		// (after a panic inside Release the tag index mutex stays locked: a shutdown would wait for ever)
-		if !vh.WithTimeout(10*time.Second, srv.Stop) {
-			res.Note("callers: the server did not shut down within 10 s after %v", c.Progs)
+		if !vh.WithTimeout(3*time.Second, srv.Stop) {
+			res.Note("callers: the server did not shut down within 3 s after %v", c.Progs)
 		}
 	}()
 	fc := &failCtrl{Controller: srv.Parts.Journals, fail: map[string]bool{}}
